@@ -36,6 +36,7 @@ class Sample:
     key: int = 60
     cluster_top: int = 0
     fine: int = 0
+    fines: Optional[List[int]] = None  # low bytes of the five loop points (default: fine, 1, 2, 3, 4)
 
     def window(self) -> Tuple[int, int]:
         """(first word, number of words) selected by the loop mode."""
@@ -147,7 +148,8 @@ def serialize(disc: Disc, rng, shapes=("contiguous", "reversed", "random", "head
         img[DIR["samp"] + 32 * si : DIR["samp"] + 32 * si + 32] = dir_entry(s.name, "samp", secs[0], total, v2)
         se = len(s.words) - 1 if s.sus_end is None else s.sus_end
         re_ = len(s.words) - 1 if s.rel_end is None else s.rel_end
-        pts = [(s.start << 8) | s.fine, (s.sus_start << 8) | 1, (se << 8) | 2, (s.rel_start << 8) | 3, (re_ << 8) | 4]
+        fn = s.fines if s.fines is not None else [s.fine, 1, 2, 3, 4]
+        pts = [(s.start << 8) | fn[0], (s.sus_start << 8) | fn[1], (se << 8) | fn[2], (s.rel_start << 8) | fn[3], (re_ << 8) | fn[4]]
         par = name16(s.name) + struct.pack("<5I", *[p & 0xFFFFFFFF for p in pts]) + bytes([s.mode, 1, 2, 3]) + struct.pack("<HH", s.cluster_top, total) + bytes([(0 << 4) | s.freq, s.key, 0, 0])
         assert len(par) == 48
         o = PAR["samp"][0] + 48 * si
@@ -275,4 +277,24 @@ def random_disc(rng) -> Disc:
     for i in range(nvol):
         k = rng.randint(0, len(avail))
         vols.append(Volume(f"Vol {i}", rng.sample(avail, k)))
-    return Disc(vols, performances, patches, partials, samples, version_flag=rng.choice([1, 2]))
+    disc = Disc(vols, performances, patches, partials, samples, version_flag=rng.choice([1, 2]))
+    return sparse(disc, rng) if rng.random() < 0.5 else disc
+
+
+def sparse(disc: Disc, rng) -> Disc:
+    """the same logical disc with its directory entries in scattered slots (the ID-area counts stay the
+    numbers of entries, not the highest slot in use)."""
+    def remap(keys, hi):
+        new = sorted(rng.sample(range(hi), len(keys)))
+        return dict(zip(sorted(keys), new))
+
+    ms = remap(disc.samples, 40)
+    mp = remap(disc.partials, 30)
+    mq = remap(disc.patches, 20)
+    mf = remap(disc.performances, 12)
+    samples = {ms[k]: v for k, v in disc.samples.items()}
+    partials = {mp[k]: Partial(v.name, [None if x is None else ms[x] for x in v.samples]) for k, v in disc.partials.items()}
+    patches = {mq[k]: Patch(v.name, [mp[x] for x in v.partials]) for k, v in disc.patches.items()}
+    performances = {mf[k]: Performance(v.name, [mq[x] for x in v.patches]) for k, v in disc.performances.items()}
+    vols = [Volume(v.name, [mf[x] for x in v.performances]) for v in disc.volumes]
+    return Disc(vols, performances, patches, partials, samples, version_flag=disc.version_flag, num_performances=disc.num_performances)
